@@ -293,7 +293,8 @@ def check_result(obj, where):
 
 # sentinel metadata (M-META)
 def sentinel_attrs():
-    return {'vp_u': 'unit', 'vp_m': {'k': [1]}}
+    # a plain value, a mutable value, and an entry whose key looks private (e.g. CF's _FillValue): all are attrs content
+    return {'vp_u': 'unit', 'vp_m': {'k': [1]}, '_vp_p': -999}
 
 
 def axis_sentinel(dim):
@@ -307,7 +308,7 @@ def meta_ok(obj, expect):
         if freeze(attrs) != freeze(sentinel_attrs()):
             return "metadata not carried: attrs=%r" % (attrs,)
     elif expect == 'drop':
-        if 'vp_u' in attrs or 'vp_m' in attrs:
+        if 'vp_u' in attrs or 'vp_m' in attrs or '_vp_p' in attrs:
             return "operand metadata leaked into result: attrs=%r" % (attrs,)
     return None
 
